@@ -1,8 +1,463 @@
 (* GENERATED from the Go source by /verif/translator on every check run — do not edit. *)
-From Coq Require Import List ZArith NArith Bool.
+From Coq Require Import String List.
 Import ListNotations.
+Local Open Scope string_scope.
 
-Inductive fact (A : Type) := Known (a : A) | Unrecognised.
-Arguments Known {A} a.
-Arguments Unrecognised {A}.
+Definition flow_client_Client : list string :=
+  ["if{"; "NewConfig"; "}"; "if{"; "}"; "if{"; "hasPort"; "if{"; "}"; "net.ResolveTCPAddr"; "if{"; "}"; "else{"; "}"; "}"; "if{"; "}"; "handlerSet"; "handlerSet"; "handlerSet"; "time.Now"; "capabilitySet"; "capabilitySet"; "conn.addIntHandlers"; "return"].
+Definition flow_client_Conn_Action : list string :=
+  ["conn.Ctcp"].
+Definition flow_client_Conn_Authenticate : list string :=
+  ["conn.Raw"].
+Definition flow_client_Conn_Away : list string :=
+  ["if{"; "}"; "conn.Raw"].
+Definition flow_client_Conn_Cap : list string :=
+  ["if{"; "conn.Raw"; "}"; "else{"; "for{"; "splitArgs"; "conn.Raw"; "}"; "}"].
+Definition flow_client_Conn_Close : list string :=
+  ["conn.closeIf"; "return"].
+Definition flow_client_Conn_Config : list string :=
+  ["return"].
+Definition flow_client_Conn_Connect : list string :=
+  ["conn.ConnectContext"; "context.Background"; "return"].
+Definition flow_client_Conn_ConnectContext : list string :=
+  ["conn.internalConnect"; "if{"; "conn.dispatch"; "time.Now"; "}"; "return"].
+Definition flow_client_Conn_ConnectTo : list string :=
+  ["conn.ConnectToContext"; "context.Background"; "return"].
+Definition flow_client_Conn_ConnectToContext : list string :=
+  ["set conn.cfg.Server"; "if{"; "set conn.cfg.Pass"; "}"; "conn.ConnectContext"; "return"].
+Definition flow_client_Conn_Connected : list string :=
+  ["conn.mu.RLock"; "defer conn.mu.RUnlock"; "return"].
+Definition flow_client_Conn_Ctcp : list string :=
+  ["for{"; "splitMessage"; "if{"; "}"; "conn.Raw"; "strings.ToUpper"; "}"].
+Definition flow_client_Conn_CtcpReply : list string :=
+  ["for{"; "splitMessage"; "if{"; "}"; "conn.Raw"; "strings.ToUpper"; "}"].
+Definition flow_client_Conn_DisableStateTracking : list string :=
+  ["conn.mu.Lock"; "defer conn.mu.Unlock"; "if{"; "conn.st.Me"; "set conn.cfg.Me"; "conn.delSTHandlers"; "conn.st.Wipe"; "set conn.st"; "}"].
+Definition flow_client_Conn_EnableStateTracking : list string :=
+  ["conn.mu.Lock"; "defer conn.mu.Unlock"; "if{"; "state.NewTracker"; "set conn.st"; "conn.st.NickInfo"; "conn.st.Me"; "set conn.cfg.Me"; "conn.addSTHandlers"; "}"].
+Definition flow_client_Conn_Handle : list string :=
+  ["conn.fgHandlers.add"; "return"].
+Definition flow_client_Conn_HandleBG : list string :=
+  ["conn.bgHandlers.add"; "return"].
+Definition flow_client_Conn_HandleFunc : list string :=
+  ["conn.Handle"; "return"].
+Definition flow_client_Conn_HasCapability : list string :=
+  ["conn.currCaps.Has"; "return"].
+Definition flow_client_Conn_Invite : list string :=
+  ["conn.Raw"].
+Definition flow_client_Conn_Join : list string :=
+  ["if{"; "}"; "conn.Raw"].
+Definition flow_client_Conn_Kick : list string :=
+  ["if{"; "}"; "conn.Raw"].
+Definition flow_client_Conn_LogPanic : list string :=
+  ["recover"; "if{"; "}"].
+Definition flow_client_Conn_Me : list string :=
+  ["if{"; "conn.st.Me"; "set conn.cfg.Me"; "}"; "return"].
+Definition flow_client_Conn_Mode : list string :=
+  ["if{"; "}"; "conn.Raw"].
+Definition flow_client_Conn_Nick : list string :=
+  ["conn.Raw"].
+Definition flow_client_Conn_Notice : list string :=
+  ["for{"; "splitMessage"; "conn.Raw"; "}"].
+Definition flow_client_Conn_Oper : list string :=
+  ["conn.Raw"].
+Definition flow_client_Conn_Part : list string :=
+  ["if{"; "}"; "conn.Raw"].
+Definition flow_client_Conn_Pass : list string :=
+  ["conn.Raw"].
+Definition flow_client_Conn_Ping : list string :=
+  ["conn.Raw"].
+Definition flow_client_Conn_Pong : list string :=
+  ["conn.Raw"].
+Definition flow_client_Conn_Privmsg : list string :=
+  ["for{"; "splitMessage"; "conn.Raw"; "}"].
+Definition flow_client_Conn_Privmsgf : list string :=
+  ["conn.Privmsg"].
+Definition flow_client_Conn_Privmsgln : list string :=
+  ["conn.Privmsg"].
+Definition flow_client_Conn_Quit : list string :=
+  ["if{"; "}"; "conn.Raw"].
+Definition flow_client_Conn_Raw : list string :=
+  ["cutNewLines"; "send conn.out"].
+Definition flow_client_Conn_StateTracker : list string :=
+  ["return"].
+Definition flow_client_Conn_String : list string :=
+  ["conn.Connected"; "if{"; "}"; "else{"; "}"; "conn.Me().String"; "conn.Me"; "if{"; "conn.st.String"; "}"; "return"].
+Definition flow_client_Conn_SupportsCapability : list string :=
+  ["conn.supportedCaps.Has"; "return"].
+Definition flow_client_Conn_Topic : list string :=
+  ["if{"; "}"; "conn.Raw"].
+Definition flow_client_Conn_User : list string :=
+  ["conn.Raw"].
+Definition flow_client_Conn_VHost : list string :=
+  ["conn.Raw"].
+Definition flow_client_Conn_Version : list string :=
+  ["conn.Ctcp"].
+Definition flow_client_Conn_Who : list string :=
+  ["conn.Raw"].
+Definition flow_client_Conn_Whois : list string :=
+  ["conn.Raw"].
+Definition flow_client_Conn_addIntHandlers : list string :=
+  ["for{"; "conn.handle"; "}"].
+Definition flow_client_Conn_addSTHandlers : list string :=
+  ["for{"; "conn.handle"; "set conn.stRemovers"; "}"].
+Definition flow_client_Conn_closeIf : list string :=
+  ["conn.mu.Lock"; "if{"; "conn.mu.Unlock"; "return"; "}"; "set conn.connected"; "conn.sock.Close"; "if{"; "conn.die"; "}"; "go func"; "{"; "conn.wg.Wait"; "close"; "}"; "for{"; "select{"; "case"; "recv conn.in"; "case"; "recv conn.out"; "case"; "recv done"; "}"; "}"; "conn.mu.Unlock"; "conn.dispatch"; "time.Now"; "return"].
+Definition flow_client_Conn_delSTHandlers : list string :=
+  ["for{"; "h.Remove"; "}"; "set conn.stRemovers"].
+Definition flow_client_Conn_dialProxy : list string :=
+  ["url.Parse"; "if{"; "return"; "}"; "proxy.FromURL"; "if{"; "return"; "}"; "set conn.proxyDialer"; "if{"; "contextProxyDialer.DialContext"; "return"; "}"; "else{"; "conn.proxyDialer.Dial"; "return"; "}"].
+Definition flow_client_Conn_dispatch : list string :=
+  ["conn.intHandlers.dispatch"; "go conn.bgHandlers.dispatch"; "conn.fgHandlers.dispatch"].
+Definition flow_client_Conn_drainIn : list string :=
+  ["for{"; "select{"; "case"; "recv conn.in"; "default"; "return"; "}"; "}"].
+Definition flow_client_Conn_drainOut : list string :=
+  ["for{"; "select{"; "case"; "recv conn.out"; "default"; "return"; "}"; "}"].
+Definition flow_client_Conn_getRequestCapabilities : list string :=
+  ["capabilitySet"; "s.Add"; "if{"; "s.Add"; "}"; "s.Add"; "return"].
+Definition flow_client_Conn_h_001 : list string :=
+  ["defer conn.dispatch"; "time.Now"; "conn.Me"; "line.Target"; "line.Text"; "strings.LastIndex"; "if{"; "}"; "parseUserHost"; "if{"; "}"; "if{"; "if{"; "conn.st.NickInfo"; "}"; "conn.st.ReNick"; "if{"; "set conn.cfg.Me"; "}"; "}"; "else{"; "set conn.cfg.Me.Nick"; "if{"; "set conn.cfg.Me.Ident"; "set conn.cfg.Me.Host"; "}"; "}"].
+Definition flow_client_Conn_h_311 : list string :=
+  ["line.argslen"; "if{"; "return"; "}"; "conn.st.GetNick"; "conn.Me().Equals"; "conn.Me"; "if{"; "conn.st.NickInfo"; "}"; "else{"; "}"].
+Definition flow_client_Conn_h_324 : list string :=
+  ["line.argslen"; "if{"; "return"; "}"; "conn.st.GetChannel"; "if{"; "conn.st.ChannelModes"; "}"; "else{"; "}"].
+Definition flow_client_Conn_h_332 : list string :=
+  ["line.argslen"; "if{"; "return"; "}"; "conn.st.GetChannel"; "if{"; "conn.st.Topic"; "}"; "else{"; "}"].
+Definition flow_client_Conn_h_352 : list string :=
+  ["line.argslen"; "if{"; "return"; "}"; "conn.st.GetNick"; "if{"; "return"; "}"; "conn.Me().Equals"; "conn.Me"; "if{"; "return"; "}"; "strings.SplitN"; "conn.st.NickInfo"; "line.argslen"; "if{"; "return"; "}"; "strings.Index"; "if{"; "conn.st.NickModes"; "}"; "strings.Index"; "if{"; "conn.st.NickModes"; "}"; "strings.Index"; "if{"; "conn.st.NickModes"; "}"].
+Definition flow_client_Conn_h_353 : list string :=
+  ["line.argslen"; "if{"; "return"; "}"; "conn.st.GetChannel"; "if{"; "strings.Split"; "for{"; "if{"; "}"; "switch{"; "case"; "case"; "conn.st.GetNick"; "if{"; "conn.st.NewNick"; "}"; "conn.st.IsOn"; "if{"; "conn.st.Associate"; "}"; "switch{"; "case"; "conn.st.ChannelModes"; "case"; "conn.st.ChannelModes"; "case"; "conn.st.ChannelModes"; "case"; "conn.st.ChannelModes"; "case"; "conn.st.ChannelModes"; "}"; "}"; "}"; "}"; "else{"; "}"].
+Definition flow_client_Conn_h_410 : list string :=
+  [].
+Definition flow_client_Conn_h_433 : list string :=
+  ["conn.Me"; "conn.cfg.NewNick"; "conn.Nick"; "line.argslen"; "if{"; "return"; "}"; "if{"; "if{"; "conn.st.ReNick"; "if{"; "set conn.cfg.Me"; "}"; "}"; "else{"; "set conn.cfg.Me.Nick"; "}"; "}"].
+Definition flow_client_Conn_h_671 : list string :=
+  ["line.argslen"; "if{"; "return"; "}"; "conn.st.GetNick"; "if{"; "conn.st.NickModes"; "}"; "else{"; "}"].
+Definition flow_client_Conn_h_903 : list string :=
+  ["conn.Cap"].
+Definition flow_client_Conn_h_904 : list string :=
+  ["conn.Cap"].
+Definition flow_client_Conn_h_908 : list string :=
+  ["conn.Cap"].
+Definition flow_client_Conn_h_AUTHENTICATE : list string :=
+  ["if{"; "return"; "}"; "if{"; "if{"; "base64.StdEncoding.EncodeToString"; "}"; "conn.Authenticate"; "set conn.saslRemainingData"; "return"; "}"; "base64.StdEncoding.DecodeString"; "if{"; "return"; "}"; "conn.cfg.Sasl.Next"; "if{"; "return"; "}"; "base64.StdEncoding.EncodeToString"; "conn.Authenticate"].
+Definition flow_client_Conn_h_CAP : list string :=
+  ["strings.Fields"; "line.Text"; "switch{"; "case"; "conn.negotiateCapabilities"; "case"; "conn.handleCapAck"; "case"; "conn.handleCapNak"; "}"].
+Definition flow_client_Conn_h_CTCP : list string :=
+  ["if{"; "conn.CtcpReply"; "}"; "else{"; "line.argslen"; "if{"; "conn.CtcpReply"; "}"; "}"].
+Definition flow_client_Conn_h_JOIN : list string :=
+  ["conn.st.GetChannel"; "conn.st.GetNick"; "if{"; "conn.Me().Equals"; "conn.Me"; "if{"; "return"; "}"; "conn.st.NewChannel"; "conn.Mode"; "conn.Who"; "}"; "if{"; "conn.st.NewNick"; "conn.st.NickInfo"; "conn.Who"; "}"; "conn.st.Associate"].
+Definition flow_client_Conn_h_KICK : list string :=
+  ["line.argslen"; "if{"; "return"; "}"; "conn.st.Dissociate"].
+Definition flow_client_Conn_h_MODE : list string :=
+  ["line.argslen"; "if{"; "return"; "}"; "conn.st.GetChannel"; "if{"; "conn.st.ChannelModes"; "}"; "else{"; "conn.st.GetNick"; "if{"; "conn.Me().Equals"; "conn.Me"; "if{"; "return"; "}"; "conn.st.NickModes"; "}"; "else{"; "}"; "}"].
+Definition flow_client_Conn_h_NICK : list string :=
+  ["if{"; "set conn.cfg.Me.Nick"; "}"].
+Definition flow_client_Conn_h_PART : list string :=
+  ["conn.st.Dissociate"].
+Definition flow_client_Conn_h_PING : list string :=
+  ["conn.Pong"].
+Definition flow_client_Conn_h_QUIT : list string :=
+  ["conn.st.DelNick"].
+Definition flow_client_Conn_h_REGISTER : list string :=
+  ["if{"; "conn.Cap"; "}"; "if{"; "conn.Pass"; "}"; "conn.Nick"; "conn.User"].
+Definition flow_client_Conn_h_STNICK : list string :=
+  ["conn.st.ReNick"].
+Definition flow_client_Conn_h_TOPIC : list string :=
+  ["line.argslen"; "if{"; "return"; "}"; "conn.st.GetChannel"; "if{"; "conn.st.Topic"; "}"; "else{"; "}"].
+Definition flow_client_Conn_handle : list string :=
+  ["conn.intHandlers.add"; "return"].
+Definition flow_client_Conn_handleCapAck : list string :=
+  ["for{"; "conn.currCaps.Add"; "if{"; "conn.cfg.Sasl.Start"; "if{"; "}"; "set conn.saslRemainingData"; "conn.Authenticate"; "}"; "}"; "if{"; "conn.Cap"; "}"].
+Definition flow_client_Conn_handleCapNak : list string :=
+  ["conn.Cap"].
+Definition flow_client_Conn_initialise : list string :=
+  ["set conn.io"; "set conn.sock"; "set conn.in"; "set conn.out"; "set conn.die"; "if{"; "conn.st.Wipe"; "}"].
+Definition flow_client_Conn_internalConnect : list string :=
+  ["conn.mu.Lock"; "defer conn.mu.Unlock"; "if{"; "return"; "}"; "if{"; "return"; "}"; "conn.initialise"; "hasPort"; "if{"; "if{"; "net.JoinHostPort"; "set conn.cfg.Server"; "}"; "else{"; "net.JoinHostPort"; "set conn.cfg.Server"; "}"; "}"; "if{"; "conn.dialProxy"; "if{"; "return"; "}"; "set conn.sock"; "}"; "else{"; "conn.dialer.DialContext"; "if{"; "set conn.sock"; "}"; "else{"; "return"; "}"; "}"; "if{"; "tls.Client"; "s.Handshake"; "if{"; "return"; "}"; "set conn.sock"; "}"; "conn.postConnect"; "set conn.connected"; "return"].
+Definition flow_client_Conn_negotiateCapabilities : list string :=
+  ["conn.supportedCaps.Add"; "conn.getRequestCapabilities"; "reqCaps.Intersect"; "reqCaps.Size"; "if{"; "conn.Cap"; "reqCaps.Slice"; "}"; "else{"; "conn.Cap"; "}"].
+Definition flow_client_Conn_ping : list string :=
+  ["defer conn.wg.Done"; "time.NewTicker"; "for{"; "select{"; "case"; "recv tick.C"; "conn.Ping"; "time.Now().UnixNano"; "time.Now"; "case"; "ctx.Done"; "recv ctx.Done()"; "tick.Stop"; "return"; "}"; "}"].
+Definition flow_client_Conn_postConnect : list string :=
+  ["bufio.NewReadWriter"; "bufio.NewReader"; "bufio.NewWriter"; "set conn.io"; "if{"; "context.WithCancel"; "set conn.die"; "conn.wg.Add"; "go conn.send"; "go conn.recv"; "go conn.runLoop"; "if{"; "conn.wg.Add"; "go conn.ping"; "}"; "go func"; "{"; "ctx.Done"; "recv ctx.Done()"; "conn.closeIf"; "}"; "}"].
+Definition flow_client_Conn_rateLimit : list string :=
+  ["time.Now().Sub"; "time.Now"; "set conn.badness"; "if{"; "set conn.badness"; "}"; "time.Now"; "set conn.lastsent"; "if{"; "return"; "}"; "return"].
+Definition flow_client_Conn_recv : list string :=
+  ["for{"; "rw.ReadString"; "if{"; "if{"; "err.Error"; "}"; "conn.wg.Done"; "conn.closeIf"; "return"; "}"; "strings.Trim"; "ParseLine"; "if{"; "time.Now"; "send conn.in"; "}"; "else{"; "}"; "}"].
+Definition flow_client_Conn_runLoop : list string :=
+  ["for{"; "select{"; "case"; "recv conn.in"; "conn.dispatch"; "case"; "ctx.Done"; "recv ctx.Done()"; "conn.wg.Done"; "conn.closeIf"; "return"; "}"; "}"].
+Definition flow_client_Conn_send : list string :=
+  ["for{"; "select{"; "case"; "recv conn.out"; "conn.write"; "if{"; "err.Error"; "conn.wg.Done"; "conn.closeIf"; "return"; "}"; "case"; "ctx.Done"; "recv ctx.Done()"; "conn.wg.Done"; "return"; "}"; "}"].
+Definition flow_client_Conn_write : list string :=
+  ["if{"; "conn.rateLimit"; "if{"; "t.Seconds"; "time.After"; "recv time.After(t)"; "}"; "}"; "conn.io.WriteString"; "if{"; "return"; "}"; "conn.io.Flush"; "if{"; "return"; "}"; "strings.HasPrefix"; "if{"; "}"; "return"].
+Definition flow_client_DefaultNewNick : list string :=
+  ["if{"; "return"; "}"; "switch{"; "case"; "case"; "case"; "}"; "return"].
+Definition flow_client_HandlerFunc_Handle : list string :=
+  ["hf"].
+Definition flow_client_Line_Copy : list string :=
+  ["if{"; "for{"; "}"; "}"; "return"].
+Definition flow_client_Line_Public : list string :=
+  ["switch{"; "case"; "if{"; "return"; "}"; "switch{"; "case"; "return"; "}"; "case"; "if{"; "return"; "}"; "switch{"; "case"; "return"; "}"; "}"; "return"].
+Definition flow_client_Line_Target : list string :=
+  ["switch{"; "case"; "line.Public"; "if{"; "return"; "}"; "case"; "line.Public"; "if{"; "return"; "}"; "return"; "}"; "if{"; "return"; "}"; "return"].
+Definition flow_client_Line_Text : list string :=
+  ["if{"; "return"; "}"; "return"].
+Definition flow_client_Line_argslen : list string :=
+  ["if{"; "fn.Name"; "return"; "}"; "return"].
+Definition flow_client_NewConfig : list string :=
+  ["if{"; "}"; "if{"; "}"; "return"].
+Definition flow_client_ParseLine : list string :=
+  ["if{"; "return"; "}"; "if{"; "strings.Index"; "if{"; "}"; "else{"; "return"; "}"; "for{"; "strings.Split"; "if{"; "}"; "strings.SplitN"; "tagsReplacer.Replace"; "if{"; "}"; "else{"; "}"; "}"; "}"; "if{"; "return"; "}"; "if{"; "strings.Index"; "if{"; "}"; "else{"; "return"; "}"; "parseUserHost"; "if{"; "}"; "}"; "strings.SplitN"; "strings.Fields"; "if{"; "return"; "}"; "if{"; "}"; "else{"; "}"; "strings.ToUpper"; "if{"; "}"; "strings.HasPrefix"; "strings.HasSuffix"; "if{"; "strings.SplitN"; "strings.Trim"; "if{"; "}"; "strings.ToUpper"; "if{"; "}"; "else{"; "if{"; "}"; "else{"; "}"; "}"; "}"; "return"].
+Definition flow_client_SimpleClient : list string :=
+  ["Client"; "NewConfig"; "return"].
+Definition flow_client_capSet_Add : list string :=
+  ["c.mu.Lock"; "for{"; "strings.HasPrefix"; "if{"; "}"; "else{"; "}"; "}"; "c.mu.Unlock"].
+Definition flow_client_capSet_Has : list string :=
+  ["c.mu.RLock"; "defer c.mu.RUnlock"; "return"].
+Definition flow_client_capSet_Intersect : list string :=
+  ["c.mu.Lock"; "for{"; "other.Has"; "if{"; "}"; "}"; "c.mu.Unlock"].
+Definition flow_client_capSet_Size : list string :=
+  ["c.mu.RLock"; "defer c.mu.RUnlock"; "return"].
+Definition flow_client_capSet_Slice : list string :=
+  ["c.mu.RLock"; "defer c.mu.RUnlock"; "for{"; "}"; "sort.Strings"; "return"].
+Definition flow_client_capabilitySet : list string :=
+  ["return"].
+Definition flow_client_cutNewLines : list string :=
+  ["strings.SplitN"; "strings.SplitN"; "return"].
+Definition flow_client_hNode_Handle : list string :=
+  ["defer conn.cfg.Recover"; "hn.handler.Handle"].
+Definition flow_client_hNode_Remove : list string :=
+  ["hn.set.remove"].
+Definition flow_client_hSet_add : list string :=
+  ["hs.Lock"; "defer hs.Unlock"; "strings.ToLower"; "if{"; "}"; "if{"; "}"; "else{"; "}"; "return"].
+Definition flow_client_hSet_dispatch : list string :=
+  ["strings.ToLower"; "for{"; "hs.getHandlers"; "wg.Add"; "go func"; "{"; "hn.Handle"; "line.Copy"; "wg.Done"; "}"; "}"; "wg.Wait"].
+Definition flow_client_hSet_getHandlers : list string :=
+  ["hs.RLock"; "defer hs.RUnlock"; "if{"; "return"; "}"; "for{"; "}"; "return"].
+Definition flow_client_hSet_remove : list string :=
+  ["hs.Lock"; "defer hs.Unlock"; "if{"; "return"; "}"; "if{"; "}"; "else{"; "}"; "if{"; "}"; "else{"; "}"; "if{"; "}"].
+Definition flow_client_handlerSet : list string :=
+  ["return"].
+Definition flow_client_hasPort : list string :=
+  ["strings.LastIndex"; "strings.LastIndex"; "return"].
+Definition flow_client_indexFragment : list string :=
+  ["for{"; "strings.LastIndex"; "if{"; "}"; "}"; "if{"; "return"; "}"; "strings.LastIndex"; "if{"; "return"; "}"; "return"].
+Definition flow_client_parseUserHost : list string :=
+  ["strings.TrimSpace"; "strings.Index"; "strings.Index"; "if{"; "return"; "}"; "return"].
+Definition flow_client_splitArgs : list string :=
+  ["for{"; "for{"; "}"; "}"; "return"].
+Definition flow_client_splitMessage : list string :=
+  ["if{"; "}"; "for{"; "indexFragment"; "if{"; "}"; "}"; "return"].
 
+Definition chan_sends_client : list (string * string) :=
+  [("Conn.Raw", "conn.out"); ("Conn.recv", "conn.in")].
+Definition chan_recvs_client : list (string * string) :=
+  [("Conn.closeIf", "conn.in"); ("Conn.closeIf", "conn.out"); ("Conn.closeIf", "done"); ("Conn.drainIn", "conn.in"); ("Conn.drainOut", "conn.out"); ("Conn.ping", "tick.C"); ("Conn.ping", "ctx.Done()"); ("Conn.postConnect", "ctx.Done()"); ("Conn.runLoop", "conn.in"); ("Conn.runLoop", "ctx.Done()"); ("Conn.send", "conn.out"); ("Conn.send", "ctx.Done()"); ("Conn.write", "time.After(t)")].
+Definition go_stmts_client : list (string * string) :=
+  [("Conn.closeIf", "func"); ("Conn.dispatch", "conn.bgHandlers.dispatch"); ("Conn.postConnect", "conn.send"); ("Conn.postConnect", "conn.recv"); ("Conn.postConnect", "conn.runLoop"); ("Conn.postConnect", "conn.ping"); ("Conn.postConnect", "func"); ("hSet.dispatch", "func")].
+
+Definition flow_state_ChanMode_Copy : list string :=
+  ["if{"; "return"; "}"; "return"].
+Definition flow_state_ChanMode_Equals : list string :=
+  ["reflect.DeepEqual"; "return"].
+Definition flow_state_ChanMode_String : list string :=
+  ["if{"; "return"; "}"; "reflect.Indirect"; "reflect.ValueOf"; "v.Type"; "for{"; "v.NumField"; "v.Field"; "f.Kind"; "switch{"; "case"; "f.Bool"; "if{"; "t.Field"; "}"; "case"; "f.String"; "if{"; "t.Field"; "f.String"; "}"; "case"; "f.Int"; "if{"; "t.Field"; "strconv.FormatInt"; "f.Int"; "}"; "}"; "}"; "for{"; "if{"; "}"; "}"; "if{"; "}"; "return"].
+Definition flow_state_ChanPrivs_Copy : list string :=
+  ["if{"; "return"; "}"; "return"].
+Definition flow_state_ChanPrivs_Equals : list string :=
+  ["reflect.DeepEqual"; "return"].
+Definition flow_state_ChanPrivs_String : list string :=
+  ["if{"; "return"; "}"; "reflect.Indirect"; "reflect.ValueOf"; "v.Type"; "for{"; "v.NumField"; "v.Field"; "f.Kind"; "switch{"; "case"; "f.Bool"; "if{"; "t.Field"; "}"; "}"; "}"; "if{"; "}"; "return"].
+Definition flow_state_Channel_Equals : list string :=
+  ["reflect.DeepEqual"; "return"].
+Definition flow_state_Channel_IsOn : list string :=
+  ["return"].
+Definition flow_state_Channel_String : list string :=
+  ["ch.Modes.String"; "for{"; "cp.String"; "}"; "return"].
+Definition flow_state_MockTracker_Associate : list string :=
+  ["_m.ctrl.Call"; "return"].
+Definition flow_state_MockTracker_ChannelModes : list string :=
+  ["for{"; "}"; "_m.ctrl.Call"; "return"].
+Definition flow_state_MockTracker_DelChannel : list string :=
+  ["_m.ctrl.Call"; "return"].
+Definition flow_state_MockTracker_DelNick : list string :=
+  ["_m.ctrl.Call"; "return"].
+Definition flow_state_MockTracker_Dissociate : list string :=
+  ["_m.ctrl.Call"].
+Definition flow_state_MockTracker_EXPECT : list string :=
+  ["return"].
+Definition flow_state_MockTracker_GetChannel : list string :=
+  ["_m.ctrl.Call"; "return"].
+Definition flow_state_MockTracker_GetNick : list string :=
+  ["_m.ctrl.Call"; "return"].
+Definition flow_state_MockTracker_IsOn : list string :=
+  ["_m.ctrl.Call"; "return"].
+Definition flow_state_MockTracker_Me : list string :=
+  ["_m.ctrl.Call"; "return"].
+Definition flow_state_MockTracker_NewChannel : list string :=
+  ["_m.ctrl.Call"; "return"].
+Definition flow_state_MockTracker_NewNick : list string :=
+  ["_m.ctrl.Call"; "return"].
+Definition flow_state_MockTracker_NickInfo : list string :=
+  ["_m.ctrl.Call"; "return"].
+Definition flow_state_MockTracker_NickModes : list string :=
+  ["_m.ctrl.Call"; "return"].
+Definition flow_state_MockTracker_ReNick : list string :=
+  ["_m.ctrl.Call"; "return"].
+Definition flow_state_MockTracker_String : list string :=
+  ["_m.ctrl.Call"; "return"].
+Definition flow_state_MockTracker_Topic : list string :=
+  ["_m.ctrl.Call"; "return"].
+Definition flow_state_MockTracker_Wipe : list string :=
+  ["_m.ctrl.Call"].
+Definition flow_state_NewMockTracker : list string :=
+  ["return"].
+Definition flow_state_NewTracker : list string :=
+  ["newNick"; "return"].
+Definition flow_state_Nick_Equals : list string :=
+  ["reflect.DeepEqual"; "return"].
+Definition flow_state_Nick_IsOn : list string :=
+  ["return"].
+Definition flow_state_Nick_String : list string :=
+  ["nk.Modes.String"; "for{"; "cp.String"; "}"; "return"].
+Definition flow_state_NickMode_Copy : list string :=
+  ["if{"; "return"; "}"; "return"].
+Definition flow_state_NickMode_Equals : list string :=
+  ["reflect.DeepEqual"; "return"].
+Definition flow_state_NickMode_String : list string :=
+  ["if{"; "return"; "}"; "reflect.Indirect"; "reflect.ValueOf"; "v.Type"; "for{"; "v.NumField"; "v.Field"; "f.Kind"; "switch{"; "case"; "f.Bool"; "if{"; "t.Field"; "}"; "}"; "}"; "if{"; "}"; "return"].
+Definition flow_state__MockTrackerRecorder_Associate : list string :=
+  ["_mr.mock.ctrl.RecordCall"; "return"].
+Definition flow_state__MockTrackerRecorder_ChannelModes : list string :=
+  ["_mr.mock.ctrl.RecordCall"; "return"].
+Definition flow_state__MockTrackerRecorder_DelChannel : list string :=
+  ["_mr.mock.ctrl.RecordCall"; "return"].
+Definition flow_state__MockTrackerRecorder_DelNick : list string :=
+  ["_mr.mock.ctrl.RecordCall"; "return"].
+Definition flow_state__MockTrackerRecorder_Dissociate : list string :=
+  ["_mr.mock.ctrl.RecordCall"; "return"].
+Definition flow_state__MockTrackerRecorder_GetChannel : list string :=
+  ["_mr.mock.ctrl.RecordCall"; "return"].
+Definition flow_state__MockTrackerRecorder_GetNick : list string :=
+  ["_mr.mock.ctrl.RecordCall"; "return"].
+Definition flow_state__MockTrackerRecorder_IsOn : list string :=
+  ["_mr.mock.ctrl.RecordCall"; "return"].
+Definition flow_state__MockTrackerRecorder_Me : list string :=
+  ["_mr.mock.ctrl.RecordCall"; "return"].
+Definition flow_state__MockTrackerRecorder_NewChannel : list string :=
+  ["_mr.mock.ctrl.RecordCall"; "return"].
+Definition flow_state__MockTrackerRecorder_NewNick : list string :=
+  ["_mr.mock.ctrl.RecordCall"; "return"].
+Definition flow_state__MockTrackerRecorder_NickInfo : list string :=
+  ["_mr.mock.ctrl.RecordCall"; "return"].
+Definition flow_state__MockTrackerRecorder_NickModes : list string :=
+  ["_mr.mock.ctrl.RecordCall"; "return"].
+Definition flow_state__MockTrackerRecorder_ReNick : list string :=
+  ["_mr.mock.ctrl.RecordCall"; "return"].
+Definition flow_state__MockTrackerRecorder_String : list string :=
+  ["_mr.mock.ctrl.RecordCall"; "return"].
+Definition flow_state__MockTrackerRecorder_Topic : list string :=
+  ["_mr.mock.ctrl.RecordCall"; "return"].
+Definition flow_state__MockTrackerRecorder_Wipe : list string :=
+  ["_mr.mock.ctrl.RecordCall"; "return"].
+Definition flow_state_channel_Channel : list string :=
+  ["ch.modes.Copy"; "for{"; "cp.Copy"; "}"; "return"].
+Definition flow_state_channel_String : list string :=
+  ["ch.Channel().String"; "ch.Channel"; "return"].
+Definition flow_state_channel_addNick : list string :=
+  ["if{"; "}"; "else{"; "}"].
+Definition flow_state_channel_delNick : list string :=
+  ["if{"; "}"; "else{"; "}"].
+Definition flow_state_channel_isOn : list string :=
+  ["cp.Copy"; "return"].
+Definition flow_state_channel_parseModes : list string :=
+  ["for{"; "switch{"; "case"; "case"; "case"; "case"; "case"; "case"; "case"; "case"; "case"; "case"; "case"; "case"; "case"; "if{"; "}"; "else{"; "if{"; "}"; "else{"; "}"; "}"; "case"; "if{"; "strconv.Atoi"; "}"; "else{"; "if{"; "}"; "else{"; "}"; "}"; "case"; "if{"; "if{"; "switch{"; "case"; "case"; "case"; "case"; "case"; "}"; "}"; "else{"; "}"; "}"; "else{"; "}"; "case"; "}"; "}"].
+Definition flow_state_init : list string :=
+  ["for{"; "}"].
+Definition flow_state_newChannel : list string :=
+  ["return"].
+Definition flow_state_newNick : list string :=
+  ["return"].
+Definition flow_state_nick_Nick : list string :=
+  ["nk.modes.Copy"; "for{"; "cp.Copy"; "}"; "return"].
+Definition flow_state_nick_String : list string :=
+  ["nk.Nick().String"; "nk.Nick"; "return"].
+Definition flow_state_nick_addChannel : list string :=
+  ["if{"; "}"; "else{"; "}"].
+Definition flow_state_nick_delChannel : list string :=
+  ["if{"; "}"; "else{"; "}"].
+Definition flow_state_nick_isOn : list string :=
+  ["cp.Copy"; "return"].
+Definition flow_state_nick_parseModes : list string :=
+  ["for{"; "switch{"; "case"; "case"; "case"; "case"; "case"; "case"; "case"; "case"; "case"; "}"; "}"].
+Definition flow_state_stateTracker_Associate : list string :=
+  ["st.mu.Lock"; "defer st.mu.Unlock"; "if{"; "return"; "}"; "else{"; "if{"; "return"; "}"; "else{"; "nk.isOn"; "if{"; "return"; "}"; "}"; "}"; "ch.addNick"; "nk.addChannel"; "cp.Copy"; "return"].
+Definition flow_state_stateTracker_ChannelModes : list string :=
+  ["st.mu.Lock"; "defer st.mu.Unlock"; "if{"; "return"; "}"; "ch.parseModes"; "ch.Channel"; "return"].
+Definition flow_state_stateTracker_DelChannel : list string :=
+  ["st.mu.Lock"; "defer st.mu.Unlock"; "if{"; "st.delChannel"; "ch.Channel"; "return"; "}"; "return"].
+Definition flow_state_stateTracker_DelNick : list string :=
+  ["st.mu.Lock"; "defer st.mu.Unlock"; "if{"; "if{"; "return"; "}"; "st.delNick"; "nk.Nick"; "return"; "}"; "return"].
+Definition flow_state_stateTracker_Dissociate : list string :=
+  ["st.mu.Lock"; "defer st.mu.Unlock"; "if{"; "}"; "else{"; "if{"; "}"; "else{"; "nk.isOn"; "if{"; "}"; "else{"; "if{"; "st.delChannel"; "}"; "else{"; "ch.delNick"; "nk.delChannel"; "if{"; "st.delNick"; "}"; "}"; "}"; "}"; "}"].
+Definition flow_state_stateTracker_GetChannel : list string :=
+  ["st.mu.Lock"; "defer st.mu.Unlock"; "if{"; "ch.Channel"; "return"; "}"; "return"].
+Definition flow_state_stateTracker_GetNick : list string :=
+  ["st.mu.Lock"; "defer st.mu.Unlock"; "if{"; "nk.Nick"; "return"; "}"; "return"].
+Definition flow_state_stateTracker_IsOn : list string :=
+  ["st.mu.Lock"; "defer st.mu.Unlock"; "if{"; "nk.isOn"; "return"; "}"; "return"].
+Definition flow_state_stateTracker_Me : list string :=
+  ["st.mu.Lock"; "defer st.mu.Unlock"; "st.me.Nick"; "return"].
+Definition flow_state_stateTracker_NewChannel : list string :=
+  ["if{"; "return"; "}"; "st.mu.Lock"; "defer st.mu.Unlock"; "if{"; "return"; "}"; "newChannel"; "st.chans[c].Channel"; "return"].
+Definition flow_state_stateTracker_NewNick : list string :=
+  ["if{"; "return"; "}"; "st.mu.Lock"; "defer st.mu.Unlock"; "if{"; "return"; "}"; "newNick"; "st.nicks[n].Nick"; "return"].
+Definition flow_state_stateTracker_NickInfo : list string :=
+  ["st.mu.Lock"; "defer st.mu.Unlock"; "if{"; "return"; "}"; "nk.Nick"; "return"].
+Definition flow_state_stateTracker_NickModes : list string :=
+  ["st.mu.Lock"; "defer st.mu.Unlock"; "if{"; "return"; "}"; "nk.parseModes"; "nk.Nick"; "return"].
+Definition flow_state_stateTracker_ReNick : list string :=
+  ["st.mu.Lock"; "defer st.mu.Unlock"; "if{"; "return"; "}"; "if{"; "return"; "}"; "for{"; "}"; "nk.Nick"; "return"].
+Definition flow_state_stateTracker_String : list string :=
+  ["st.mu.Lock"; "defer st.mu.Unlock"; "for{"; "ch.String"; "}"; "for{"; "if{"; "n.String"; "}"; "}"; "return"].
+Definition flow_state_stateTracker_Topic : list string :=
+  ["st.mu.Lock"; "defer st.mu.Unlock"; "if{"; "return"; "}"; "ch.Channel"; "return"].
+Definition flow_state_stateTracker_Wipe : list string :=
+  ["st.mu.Lock"; "defer st.mu.Unlock"; "for{"; "st.delChannel"; "}"].
+Definition flow_state_stateTracker_delChannel : list string :=
+  ["for{"; "ch.delNick"; "nk.delChannel"; "if{"; "st.delNick"; "}"; "}"].
+Definition flow_state_stateTracker_delNick : list string :=
+  ["if{"; "return"; "}"; "for{"; "nk.delChannel"; "ch.delNick"; "if{"; "}"; "}"].
+
+Definition chan_sends_state : list (string * string) :=
+  [].
+Definition chan_recvs_state : list (string * string) :=
+  [].
+Definition go_stmts_state : list (string * string) :=
+  [].
+
+Definition var_client_intHandlers : list string :=
+  ["""REGISTER"""; "(*Conn).h_REGISTER"; """001"""; "(*Conn).h_001"; """433"""; "(*Conn).h_433"; """CTCP"""; "(*Conn).h_CTCP"; """NICK"""; "(*Conn).h_NICK"; """PING"""; "(*Conn).h_PING"; """CAP"""; "(*Conn).h_CAP"; """410"""; "(*Conn).h_410"; """AUTHENTICATE"""; "(*Conn).h_AUTHENTICATE"; """903"""; "(*Conn).h_903"; """904"""; "(*Conn).h_904"; """908"""; "(*Conn).h_908"].
+Definition var_client_defaultCaps : list string :=
+  [].
+Definition var_client_tagsReplacer : list string :=
+  ["strings.NewReplacer"; """\\:"""; """;"""; """\\s"""; """ """; """\\\\"""; """\\"""; """\\r"""; """\r"""; """\\n"""; """\n"""].
+Definition var_client_stHandlers : list string :=
+  ["""JOIN"""; "(*Conn).h_JOIN"; """KICK"""; "(*Conn).h_KICK"; """MODE"""; "(*Conn).h_MODE"; """NICK"""; "(*Conn).h_STNICK"; """PART"""; "(*Conn).h_PART"; """QUIT"""; "(*Conn).h_QUIT"; """TOPIC"""; "(*Conn).h_TOPIC"; """311"""; "(*Conn).h_311"; """324"""; "(*Conn).h_324"; """332"""; "(*Conn).h_332"; """352"""; "(*Conn).h_352"; """353"""; "(*Conn).h_353"; """671"""; "(*Conn).h_671"].
+Definition var_state_StringToChanMode : list string :=
+  [].
+Definition var_state_ChanModeToString : list string :=
+  ["""Private"""; """p"""; """Secret"""; """s"""; """ProtectedTopic"""; """t"""; """NoExternalMsg"""; """n"""; """Moderated"""; """m"""; """InviteOnly"""; """i"""; """OperOnly"""; """O"""; """SSLOnly"""; """z"""; """Registered"""; """r"""; """AllSSL"""; """Z"""; """Key"""; """k"""; """Limit"""; """l"""].
+Definition var_state_StringToChanPriv : list string :=
+  [].
+Definition var_state_ChanPrivToString : list string :=
+  ["""Owner"""; """q"""; """Admin"""; """a"""; """Op"""; """o"""; """HalfOp"""; """h"""; """Voice"""; """v"""].
+Definition var_state_ModeCharToChanPriv : list string :=
+  [].
+Definition var_state_ChanPrivToModeChar : list string :=
+  ["""Owner"""; "126"; """Admin"""; "38"; """Op"""; "64"; """HalfOp"""; "37"; """Voice"""; "43"].
+Definition var_state_StringToNickMode : list string :=
+  [].
+Definition var_state_NickModeToString : list string :=
+  ["""Bot"""; """B"""; """Invisible"""; """i"""; """Oper"""; """o"""; """WallOps"""; """w"""; """HiddenHost"""; """x"""; """SSL"""; """z"""].
